@@ -86,6 +86,11 @@ def fixed_pool():
         ('P("<1.0||>2")', lambda: P("<1.0||>2")),
         ('P("<1.0||>=2.0||==1.5")', lambda: P("<1.0||>=2.0||==1.5")),
         ('P("==1.5||<1||>=2")', lambda: P("==1.5||<1||>=2")),
+        # the release 0 as lower bound: the most plausible "other spelling" of the universal set, and not one
+        ('P(">=0")', lambda: P(">=0")),
+        ('P(">=0.0")', lambda: P(">=0.0")),
+        ("~P(<0)", lambda: ~P("<0")),
+        ('P(">=0.dev0")', lambda: P(">=0.dev0")),
         ('P(">1")', lambda: P(">1")),
         ('P("<2")', lambda: P("<2")),
         ('P("<2.0")', lambda: P("<2.0")),
